@@ -13,6 +13,7 @@
    [u] is the type universe (method sets): all theorems hold for every universe. *)
 From Eino Require Import Base.Util Model.Types Model.TypeBuilder.
 From Eino Require Import Proofs.TypesLattice Proofs.TypesBuilder Proofs.TypesRun Proofs.TypesInv2 Proofs.TypesMay Proofs.TypesMain.
+From Eino Require Import Proofs.TypesOrder Proofs.TypesAddOrder.
 
 (* the universe of the harness: T1 T2 T3 M = TConc 0..3, I1 I2 = TIface 0 1 *)
 Definition U0 : univ :=
@@ -224,3 +225,135 @@ Example may_edges_branch_nonvacuous :
   step_mismatch U0 st [(2, DVal 2)]%N = true /\
   run U0 (assert_type U0) [(2, DVal 0)]%N st' (DVal 0) = ROther.
 Proof. vm_compute. repeat split. Qed.
+
+(* ------------------------------------------------------------------ inference_order_independent *)
+
+(* Work-list order.  For every sequence of calls, the iteration order of toValidateMap at
+   every range statement and of branch.endNodes (the oracles [orcs1], [orcs2]) is
+   invisible: the same calls succeed, every node gets the same types, the same
+   connections carry converters, the same entries stay pending, and every run of the
+   result behaves the same.  (This needs all four repairs; see the refutations below.) *)
+Theorem inference_worklist_order_independent : forall u orcs1 orcs2 i o s ops st1 oks1 st2 oks2,
+  run_ops u orcs1 0 (init_graph i o s) ops = (st1, oks1) ->
+  run_ops u orcs2 0 (init_graph i o s) ops = (st2, oks2) ->
+  oks1 = oks2 /\
+  (forall k, in_ty st1 k = in_ty st2 k) /\ (forall k, out_ty st1 k = out_ty st2 k) /\
+  g_nodes st1 = g_nodes st2 /\ g_data st1 = g_data st2 /\ g_branches st1 = g_branches st2 /\
+  g_compiled st1 = g_compiled st2 /\ g_err st1 = g_err st2 /\
+  (forall x, In x (g_hedge st1) <-> In x (g_hedge st2)) /\
+  (forall p, In p (g_tvm st1) <-> In p (g_tvm st2)) /\
+  (forall asrt emit input, run u asrt emit st1 input = run u asrt emit st2 input).
+Proof. exact worklist_independent_obs. Qed.
+Print Assumptions inference_worklist_order_independent.
+
+Definition asc2 : nat -> nat -> nat -> list key := fun _ _ _ => [0; 1; 2; 3; 4; 5; 6; 7]%N.
+Definition desc2 : nat -> nat -> nat -> list key := fun _ _ _ => [7; 6; 5; 4; 3; 2; 1; 0]%N.
+
+(* three linked passthrough nodes typed backwards: different oracles, different numbers of
+   passes, same result *)
+Definition ops_chain : list op :=
+  [OpPass 2 None None; OpPass 3 None None; OpPass 4 None None; OpNode 5 I2 T1 None None;
+   OpEdge 2 3; OpEdge 3 4; OpEdge 4 5; OpEdge 0 2; OpEdge 5 1; OpCompile]%N.
+Example inference_worklist_order_independent_nonvacuous :
+  let r1 := run_ops U0 asc2 0 (init_graph T1 T1 None) ops_chain in
+  let r2 := run_ops U0 desc2 0 (init_graph T1 T1 None) ops_chain in
+  snd r1 = snd r2 /\ g_compiled (fst r1) = true /\ in_ty (fst r1) 2%N = Some I2 /\ in_ty (fst r2) 2%N = Some I2.
+Proof. vm_compute. auto. Qed.
+
+(* F-C07d (before d47d56e, [noprop = true]): Q->P pending, a branch without end nodes types Q
+   as I2, then START:T1->P: the two types meet in one update and P->n4:T2 is accepted or
+   rejected depending on the iteration order *)
+Definition ops_e : list op :=
+  [OpPass 2 None None; OpPass 3 None None; OpNode 4 T2 T1 None None; OpEdge 2 3; OpBranch 2 I2 [] [];
+   OpEdge 0 3; OpEdge 0 2; OpEdge 3 4; OpEdge 4 1; OpCompile]%N.
+Theorem inference_worklist_order_independent_v0_refuted :
+  last (snd (run_ops_sel U0 false false true asc 0 (init_graph T1 T1 None) ops_e)) false = true /\
+  last (snd (run_ops_sel U0 false false true asc2 0 (init_graph T1 T1 None) ops_e)) false = false /\
+  snd (run_ops U0 asc 0 (init_graph T1 T1 None) ops_e) = snd (run_ops U0 asc2 0 (init_graph T1 T1 None) ops_e).
+Proof. vm_compute. auto. Qed.
+
+(* F-C07c (before 95ae261, [stale = true], together with the unpropagated branch type):
+   X->Q1, X->Q2 pending, Q1 typed T1, then Q2->n5:T2: rejected, or accepted with X's type
+   overwritten -- and the accepted graph panics at run time *)
+Definition ops_f : list op :=
+  [OpPass 2 None None; OpPass 3 None None; OpPass 4 None None; OpNode 5 T2 T2 None None; OpNode 6 T1 T2 None None;
+   OpEdge 2 3; OpEdge 2 4; OpBranch 3 T1 [] []; OpEdge 4 5; OpEdge 0 2; OpEdge 5 1; OpEdge 3 6; OpEdge 6 1; OpCompile]%N.
+Theorem inference_worklist_order_independent_v00_refuted :
+  last (snd (run_ops_sel U0 false true true asc 0 (init_graph T2 T2 None) ops_f)) false = false /\
+  (let st := fst (run_ops_sel U0 false true true desc2 0 (init_graph T2 T2 None) ops_f) in
+   g_compiled st = true /\ run U0 (assert_type U0) [] st (DVal 1) = RPanicEsc).
+Proof. vm_compute. auto. Qed.
+
+(* Order of the Add* calls.  With interface types it is observable, so the statement
+   "accept/reject and inferred types are the same for every order of the Add* calls that
+   keeps node-before-edge" is false as it stands: P->n4:I2 first types P as I2 and
+   P->n5:T2 is then accepted with a run-time check; n2:T1->P first types P as T1 and
+   P->n5:T2 is rejected.  Both outcomes are sound (compile_sound, run_type_safe hold for
+   every order). *)
+Definition ops_g1 : list op :=
+  [OpNode 2 T1 T1 None None; OpPass 3 None None; OpNode 4 I2 T1 None None; OpNode 5 T2 T1 None None;
+   OpEdge 0 2; OpEdge 3 4; OpEdge 2 3; OpEdge 3 5; OpEdge 4 1; OpEdge 5 1; OpCompile]%N.
+Definition ops_g2 : list op :=
+  [OpNode 2 T1 T1 None None; OpPass 3 None None; OpNode 4 I2 T1 None None; OpNode 5 T2 T1 None None;
+   OpEdge 0 2; OpEdge 2 3; OpEdge 3 4; OpEdge 3 5; OpEdge 4 1; OpEdge 5 1; OpCompile]%N.
+Theorem inference_order_independent_refuted :
+  Permutation.Permutation ops_g1 ops_g2 /\
+  last (snd (run_ops U0 asc 0 (init_graph T1 T1 None) ops_g1)) false = true /\
+  last (snd (run_ops U0 asc 0 (init_graph T1 T1 None) ops_g2)) false = false.
+Proof.
+  split; [|vm_compute; auto].
+  unfold ops_g1, ops_g2. do 5 apply Permutation.perm_skip. apply Permutation.perm_swap.
+Qed.
+
+(* Partial form that does hold: universes without interface types.
+   [conc t]: t is not an interface type; [op_tyP conc]: the call declares only such types;
+   [no_compile]: no Compile inside the sequence (one is appended at the end);
+   [nbu [] L]: node-before-use, every AddEdge / AddBranch names only START, END and nodes
+   added by earlier calls of L.  For every type universe, all oracles, every permutation:
+   if one order is accepted, the other is accepted too and every node (passthrough nodes
+   included) gets the same input and output type.  Invalid sequences (duplicate keys or
+   edges, bad handlers, ...) are covered: they are rejected in every order. *)
+Theorem inference_order_independent_partial : forall u orcs1 orcs2 i o s L1 L2,
+  conc i -> conc o -> Forall (op_tyP conc) L1 -> no_compile L1 ->
+  Permutation.Permutation L1 L2 -> nbu [] L2 ->
+  last (snd (run_ops u orcs1 0 (init_graph i o s) (L1 ++ [OpCompile]))) false = true ->
+  last (snd (run_ops u orcs2 0 (init_graph i o s) (L2 ++ [OpCompile]))) false = true /\
+  forall k,
+    in_ty (fst (run_ops u orcs1 0 (init_graph i o s) (L1 ++ [OpCompile]))) k =
+    in_ty (fst (run_ops u orcs2 0 (init_graph i o s) (L2 ++ [OpCompile]))) k /\
+    out_ty (fst (run_ops u orcs1 0 (init_graph i o s) (L1 ++ [OpCompile]))) k =
+    out_ty (fst (run_ops u orcs2 0 (init_graph i o s) (L2 ++ [OpCompile]))) k.
+Proof. exact add_order_accept. Qed.
+Print Assumptions inference_order_independent_partial.
+
+(* ... hence the same verdict when both orders keep node-before-use *)
+Theorem inference_order_independent_partial_verdict : forall u orcs1 orcs2 i o s L1 L2,
+  conc i -> conc o -> Forall (op_tyP conc) L1 -> no_compile L1 ->
+  Permutation.Permutation L1 L2 -> nbu [] L1 -> nbu [] L2 ->
+  last (snd (run_ops u orcs1 0 (init_graph i o s) (L1 ++ [OpCompile]))) false =
+  last (snd (run_ops u orcs2 0 (init_graph i o s) (L2 ++ [OpCompile]))) false.
+Proof. exact add_order_verdict. Qed.
+Print Assumptions inference_order_independent_partial_verdict.
+
+(* two passthrough nodes and a branch, connection calls in opposite orders *)
+Definition ops_hn : list op :=
+  [OpNode 2 T1 T2 None None; OpPass 3 None None; OpPass 4 None None; OpNode 5 T2 T1 None None]%N.
+Definition ops_hc : list op :=
+  [OpEdge 0 2; OpEdge 2 3; OpEdge 3 4; OpBranch 4 T2 [5; 3] [5]; OpEdge 5 1]%N.
+Definition ops_h1 : list op := ops_hn ++ ops_hc.
+Definition ops_h2 : list op := rev ops_hn ++ rev ops_hc.
+Example inference_order_independent_partial_nonvacuous :
+  conc T1 /\ Forall (op_tyP conc) ops_h1 /\ no_compile ops_h1 /\
+  Permutation.Permutation ops_h1 ops_h2 /\ nbu [] ops_h1 /\ nbu [] ops_h2 /\
+  last (snd (run_ops U0 asc 0 (init_graph T1 T1 None) (ops_h1 ++ [OpCompile]))) false = true /\
+  in_ty (fst (run_ops U0 asc2 0 (init_graph T1 T1 None) (ops_h2 ++ [OpCompile]))) 3%N = Some T2.
+Proof.
+  split; [reflexivity|].
+  split; [repeat constructor|].
+  split; [repeat constructor; discriminate|].
+  split.
+  { unfold ops_h1, ops_h2. apply Permutation.Permutation_app; apply Permutation.Permutation_rev. }
+  split; [simpl; intuition (try discriminate); subst; simpl; intuition|].
+  split; [simpl; intuition (try discriminate); subst; simpl; intuition|].
+  vm_compute. auto.
+Qed.
